@@ -801,6 +801,11 @@ pub fn supervise(p: &'static dyn Property, tier: Tier, replay_only: Option<&str>
             }
         }
         evaluations += 1;
+        if let Ok(l) = std::env::var("VERIF_FIND_LABEL") {
+            if r.cx.labels.contains(&l) {
+                println!("FOUND label={l} idx={}", r.idx);
+            }
+        }
         distinct.insert(r.hash);
         for l in &r.cx.labels {
             *labels.entry(l.clone()).or_insert(0) += 1;
